@@ -12,6 +12,7 @@ import SkimModel.Driver.C06
 import SkimModel.Driver.C07
 import SkimModel.Driver.C17
 import SkimModel.Driver.C11
+import SkimModel.Driver.C05Cli
 import SkimModel.Driver.C15
 import SkimModel.Driver.C16
 import SkimModel.Driver.C18
@@ -78,6 +79,7 @@ def answer (line : String) : String :=
       | .ok (m, v) => m ++ "\t" ++ v
       | .error e => "error:" ++ e ++ "\terror"
     | "C11" => C11.answer case impl
+    | "C05CLI" => C05Cli.answer case impl
     | "C15" => C15.answer case impl
     | _ => "error:unknown-property\terror"
   | _ => "error:bad-line\terror"
